@@ -67,3 +67,75 @@ for _name, (_props, _text) in USES.items():
     oset(f"lib.{_slug}.thorough", _props, [], kind="library-validation", tier="thorough",
          bounded=f"3000 random samples on {PY} (virtual-time loop); validates an assumption, proves nothing",
          assumptions=[f"trusted library contract (validated on samples only): {_text}"])(_make(_name, 3000))
+
+
+@oset("socket.receive.every-two-cut-segmentation", ["C13"], [], kind="library-validation", tier="thorough",
+      bounded="the real socket on the virtual-time loop fed a 3-frame AT4 stream cut at every pair of positions, plus 300 random "
+              "3..6-cut segmentations with random gaps (end-to-end companion of the readexactly contract; proves nothing)")
+def every_two_cut(h):
+    if not h.symbolic:
+        return
+    import random
+    import sys
+    repo = os.environ.get("PYVC_REPO", "/repo")
+    code = r'''
+import sys, json, random
+sys.path.insert(0, %r); sys.path.insert(0, %r)
+from replay import read_scenarios as R
+reg, frames = R._frames()
+stream = b"".join(f for _, f in frames); want = [m for m, _ in frames]
+bad = None; n = 0
+L = len(stream)
+for a in range(1, L):
+    for b in range(a + 1, L):
+        got, conns = R._deliver([stream[:a], stream[a:b], stream[b:]], reg); n += 1
+        if got != want or conns != 1:
+            bad = [a, b]; break
+    if bad: break
+rng = random.Random(5)
+if not bad:
+    for _ in range(300):
+        cuts = sorted(rng.sample(range(1, L), rng.randint(3, 6)))
+        parts = [stream[i:j] for i, j in zip([0] + cuts, cuts + [L])]
+        got, conns = R._deliver(parts, reg); n += 1
+        if got != want or conns != 1:
+            bad = cuts; break
+print(json.dumps({"runs": n, "bad": bad, "stream_len": L}))
+''' % (VERIF, repo)
+    p = subprocess.run([PY, "-c", code], capture_output=True, text=True, timeout=3000)
+    ok = p.returncode == 0
+    res = json.loads(p.stdout.strip().splitlines()[-1]) if ok and p.stdout.strip() else {}
+    h.oblige("the segmentation run completed on the package's interpreter", ok and bool(res), detail=(p.stdout + p.stderr)[-400:])
+    h.oblige("for every two-cut segmentation and 300 random multi-cut ones the subscriber receives exactly the three messages, once each, in order, "
+             "on one connection", res.get("bad") is None and res.get("runs", 0) > 300, detail=json.dumps(res))
+    h.cover("segmentations run")
+
+
+def _history(runs):
+    def script(h):
+        if not h.symbolic:
+            return
+        env = dict(os.environ, PYVC_REPO=os.environ.get("PYVC_REPO", "/repo"))
+        p = subprocess.run([PY, os.path.join(VERIF, "replay", "history_fuzz.py"), "20260928", str(runs)], capture_output=True, text=True,
+                           timeout=3000, cwd=VERIF, env=env)
+        lines = [l for l in p.stdout.strip().splitlines() if l.startswith("{")]
+        res = json.loads(lines[-1]) if p.returncode == 0 and lines else {}
+        h.oblige("the exploration ran on the package's interpreter", bool(res), detail=(p.stdout[-300:] + p.stderr[-300:]))
+        if not res:
+            return
+        st = res.get("stats", {})
+        h.oblige("the scripts exercised what they are meant to (messages reached the wire, connections were lost and replaced, writes failed)",
+                 st.get("on_wire", 0) > runs and st.get("connections", 0) > runs and st.get("runs_with_write_fault", 0) > runs // 10, detail=json.dumps(st))
+        h.oblige("on every explored history of sends, clock advances, refusals, latencies, back-pressure, write faults and peer closes: only submitted "
+                 "messages on the wire, whole frames, acceptance order and at most once without write faults, at most 1 + retries otherwise, nothing at "
+                 "or after expiry, capacity rule exact at every enqueue, one open connection, connected again after the network heals",
+                 res.get("n_violating_runs", 1) == 0, detail=json.dumps(res.get("violations", [])[:2])[:1500])
+        h.cover("histories explored")
+    return script
+
+
+oset("socket.histories.native-exploration", ["C01", "C02", "C07", "C16"], [], kind="library-validation",
+     bounded="500 random fault scripts (5..40 steps each) on the real socket, virtual-time loop; end-to-end companion of the step contracts "
+             "and of lemmas/Fifo.lean / Conn.lean; proves nothing")(_history(500))
+oset("socket.histories.native-exploration.thorough", ["C01", "C02", "C07", "C16"], [], kind="library-validation", tier="thorough",
+     bounded="20000 random fault scripts (5..40 steps each) on the real socket, virtual-time loop; proves nothing")(_history(20000))
